@@ -184,7 +184,10 @@ class ListeningConnection(Connection):
         )
         connection._reader, connection._writer = reader, writer
         await self.network.on_peer_accepted(connection)
-        await connection.set_state(ConnectionState.CONNECTED)
+        # The connection could already have been closed again while it was being
+        # initialized (EOF, undecodable or unexpected initialization message)
+        if connection.state == ConnectionState.UNINITIALIZED:
+            await connection.set_state(ConnectionState.CONNECTED)
 
 
 class DataConnection(Connection, abc.ABC):
